@@ -192,6 +192,25 @@ class Emitter:
                         ew[fq] = n.args[0].id
         return sw, ew
 
+    def writer_reach(self, sw, ew):
+        """repo functions - other than the recognised string / element writers themselves - from which a write to the document is
+        reachable: a call to one of them inside a document writer emits markup the template would otherwise silently miss"""
+        if getattr(self, "_writer_reach", None) is None:
+            p = self.p
+            direct = set(sw) | set(ew)
+            for fq, f in p.funcs.items():
+                for call, tg in p.calls[fq]:
+                    if isinstance(call.func, ast.Attribute) and call.func.attr in ("write", "writelines") and any(t.startswith(("extm:open", "unk:write")) for t in tg):
+                        direct.add(fq)
+            out = set()
+            for fq in p.funcs:
+                if fq in sw or fq in ew:
+                    continue
+                if fq in direct or any(q in direct for q in p.reachable([fq])):
+                    out.add(fq)
+            self._writer_reach = out
+        return self._writer_reach
+
     def document(self, f: Func) -> List[Elem]:
         """document template(s) written by writer function f"""
         sw, ew = self.writer_roles()
@@ -239,6 +258,13 @@ class _State:
         em, f = self.em, self.f
         if isinstance(e, ast.Name):
             return self.env.get(e.id)
+        if isinstance(e, ast.IfExp):
+            a, b = self.ev(e.body, ctx), self.ev(e.orelse, ctx)
+            if isinstance(a, (Elem, _Alts)) and isinstance(b, (Elem, _Alts)):
+                return _Alts(self._each(a) + self._each(b))
+            if a is None and b is None:
+                return None
+            raise AnalysisError(f"{f.loc(e)}: conditional expression mixes an element with something else")
         if isinstance(e, (ast.List, ast.Tuple)) and e.elts:
             vals = [self.ev(x, ctx) for x in e.elts]
             if all(isinstance(v, (Elem, _Alts)) for v in vals):
@@ -503,10 +529,33 @@ class _State:
         return None
 
     # -------------------------------------------------------------- document writers
+    def _unmodelled_writes(self, node, sw, ew):
+        """fail closed on a call, somewhere in `node`, to a helper that itself writes to the document"""
+        if node is None:
+            return
+        p, f = self.em.p, self.f
+        reach = self.em.writer_reach(sw, ew)
+        for n in ast.walk(node):
+            if isinstance(n, ast.Call):
+                hit = [t for t in p.resolve_call(n, f) if t in reach and t != f.qual]
+                if hit:
+                    raise AnalysisError(f"{f.loc(n)}: call of {hit[0]}, which writes to the document itself (writer helper not modelled by the template extraction)")
+
     def doc_block(self, stmts, ctx, sw, ew):
         p, f = self.em.p, self.f
         items = []
         for s in stmts:
+            if isinstance(s, ast.If):
+                self._unmodelled_writes(s.test, sw, ew)
+            elif isinstance(s, ast.For):
+                self._unmodelled_writes(s.iter, sw, ew)
+            elif isinstance(s, ast.With):
+                for wi in s.items:
+                    self._unmodelled_writes(wi.context_expr, sw, ew)
+            elif isinstance(s, (ast.While, ast.Try)):
+                pass
+            elif not (isinstance(s, ast.Expr) and isinstance(s.value, ast.Call) and any(t in sw or t in ew for t in p.resolve_call(s.value, f))):
+                self._unmodelled_writes(s, sw, ew)
             if isinstance(s, ast.Expr) and isinstance(s.value, ast.Call):
                 c = s.value
                 tg = p.resolve_call(c, f)
@@ -543,6 +592,16 @@ class _State:
                     items.append(Opt(Guard(s.test, False, f), b))
                 continue
             elif isinstance(s, ast.For):
+                # for el in (build(x) for x in xs) / a local name bound once to such a comprehension: el is the comprehension's element
+                it = s.iter
+                if isinstance(it, ast.Name):
+                    binds = [n for n in walk_no_nested(f.node) if isinstance(n, ast.Assign) and len(n.targets) == 1 and isinstance(n.targets[0], ast.Name) and n.targets[0].id == it.id]
+                    if len(binds) == 1:
+                        it = binds[0].value
+                if isinstance(it, (ast.GeneratorExp, ast.ListComp)) and len(it.generators) == 1 and isinstance(s.target, ast.Name):
+                    v = self.ev(it.elt, ctx + [("for", s, True)])
+                    if isinstance(v, (Elem, _Alts)):
+                        self.env[s.target.id] = v
                 a = self.doc_block(s.body, ctx + [("for", s, True)], sw, ew)
                 if a:
                     items.append(Rep(s, f, a))
@@ -559,6 +618,9 @@ class _State:
                 for n in ast.walk(s):
                     if isinstance(n, ast.Call) and isinstance(n.func, ast.Attribute) and n.func.attr == "write":
                         raise AnalysisError(f"{f.loc(s)}: write inside {type(s).__name__} (unrecognised writer idiom)")
+                    if isinstance(n, ast.Call) and any(t in sw or t in ew for t in p.resolve_call(n, f)):
+                        raise AnalysisError(f"{f.loc(s)}: write inside {type(s).__name__} (unrecognised writer idiom)")
+                self._unmodelled_writes(s, sw, ew)
             elif isinstance(s, ast.Assign) and len(s.targets) == 1 and isinstance(s.targets[0], ast.Name):
                 v = self.ev(s.value, ctx)
                 if isinstance(v, (Elem, _Alts)):
